@@ -20,7 +20,12 @@ Seed3 == [StartAt |-> Str("P"), States |-> [P |-> [Type |-> Str("Parallel"), End
 Seed4 == [StartAt |-> Str("M"), States |-> [M |-> [Type |-> Str("Map"), Next |-> Str("D"),
              ItemProcessor |-> Machine1([StartAt |-> Str("I"), States |-> [I |-> P([End |-> Bool(TRUE)])]])], D |-> P([End |-> Bool(TRUE)])]]
 Seed5 == [StartAt |-> Str("W"), States |-> [W |-> [Type |-> Str("Wait"), Seconds |-> Num(1), Next |-> Str("F")], F |-> P([End |-> Bool(TRUE)])]]
-Seeds == {Seed1, Seed2, Seed3, Seed4, Seed5}
+(* two levels of nesting: siblings, cousins, parent/child name collisions *)
+Seed6 == [StartAt |-> Str("P"), States |-> [P |-> [Type |-> Str("Parallel"), End |-> Bool(TRUE),
+             Branches |-> Machines(<<[StartAt |-> Str("Q"), States |-> [Q |-> [Type |-> Str("Map"), End |-> Bool(TRUE),
+                                          ItemProcessor |-> Machine1([StartAt |-> Str("I"), States |-> [I |-> P([Next |-> Str("J")]), J |-> P([End |-> Bool(TRUE)])]])]]],
+                                      [StartAt |-> Str("Z"), States |-> [Z |-> P([Next |-> Str("Y")]), Y |-> P([End |-> Bool(TRUE)])]]>>)]]]
+Seeds == {Seed1, Seed2, Seed3, Seed4, Seed5, Seed6}
 
 RECURSIVE Reach(_, _)
 Reach(S, d) == IF d = 0 THEN S ELSE Reach(S \cup UNION {Mutants(m) : m \in S}, d - 1)
@@ -33,5 +38,6 @@ Emit == PrintT("DEF " \o ToJson([wf |-> WellFormed(m), def |-> m]))
 
 SeedsWellFormed == \A s \in Seeds : WellFormed(s)
 LawDropStart == m \in Seeds => ~WellFormed(DropState(m, m.StartAt.s))
+LawCollision == m \in Seeds => \A x \in NameCollisions(m) : MachineOK(x) /\ ~NamesUnique(x)
 LawDangling == m \in Seeds => \A n \in DOMAIN m.States : ~WellFormed(WithState(m, n, SetField(m.States[n], "Next", Str("Nowhere"))))
 =============================================================================
